@@ -8,7 +8,7 @@
 Require Import Floats.SpecFloat.
 Require Import ZArith.
 From Flocq Require Import Core BinarySingleNaN.
-From Dasp Require Import Base.Float Signal.Converter.
+From Dasp Require Import Base.Res Base.Float Signal.Converter Sample.Rint Sample.ConvSpec Sample.SampleFmt Sample.SampleOps.
 Open Scope Z_scope.
 
 Definition NF : Num :=
@@ -25,3 +25,21 @@ Definition fmt_i16 : Fmt NF :=
 Definition fmt_u8 : Fmt NF :=
   mkFmt NF Z (fun s => F64.div (F64.of_Z (s - 128)) c128)
              (fun x => F64.to_Z_sat (-128) 127 (F64.mul x c128) + 128) 128.
+
+(* Every sample format of dasp_sample, with Sample::to_sample::<f64>() and f64::to_sample::<S>() taken
+   from the GENERATED conversion tables (gen/ConvGen.v, gen/ConvFloatGen.v, regenerated from
+   /repo/dasp_sample/src/conv.rs on every run) in the checked (dev profile) mode, and the equilibrium
+   the property specifies (Sample/ConvSpec.v: 0 for signed, 2^(bits-1) for unsigned, 0.0 for floats) -
+   NOT the value read from the source tables, so a wrong EQUILIBRIUM constant in the code disagrees.
+   A conversion that panics has no value in this record: the fallback is the equilibrium and the
+   harness reports the panic, so such a case shows up as a disagreement. *)
+Definition spec_equilibrium (f : sfmt) : sty f :=
+  match f with SInt fi => equilibrium fi | SF32 => F32.zero | SF64 => F64.zero end.
+
+Definition unres {A} (d : A) (r : res A) : A := match r with Ok a => a | _ => d end.
+
+Definition fmt_gen (f : sfmt) : Fmt NF :=
+  mkFmt NF (sty f)
+    (fun s => unres F64.zero (conv Checked f SF64 s))
+    (fun x => unres (spec_equilibrium f) (conv Checked SF64 f x))
+    (spec_equilibrium f).
